@@ -150,4 +150,142 @@ theorem findMatch_all_soft_ne_noMatch {u : Universe} {name : Bytes} {r0 : Bytes}
   rw [findMatch_all_soft h]
   split <;> simp
 
+/-! ### no unparsable requirement survives `findMatch`; one range after soft requirements always has an answer -/
+
+theorem scan_error {u : Universe} {name : Bytes} :
+    ∀ (rs : List Bytes) (i : Nat) (s : Scan) (e : FindMatch), scan u name rs i s = .error e →
+      e = .errOther ∨ e = .errNotFound := by
+  intro rs
+  induction rs with
+  | nil => intro i s e h; simp [scan] at h
+  | cons r rs ih =>
+    intro i s e h
+    simp only [scan] at h
+    split at h
+    · cases h; exact .inl rfl
+    · exact ih _ _ _ h
+    · split at h
+      · rename_i e' he'
+        cases h
+        split at he'
+        · cases he'
+        · split at he'
+          · cases he'; exact .inr rfl
+          · cases he'
+      · split at h
+        · cases h; exact .inl rfl
+        · exact ih _ _ _ h
+
+theorem scan_ok_no_bad {u : Universe} {name : Bytes} :
+    ∀ (rs : List Bytes) (i : Nat) (s s' : Scan), scan u name rs i s = .ok s' →
+      ∀ r ∈ rs, reqKind u r ≠ .bad := by
+  intro rs
+  induction rs with
+  | nil => intro i s s' _ r hr; cases hr
+  | cons r rs ih =>
+    intro i s s' h x hx
+    simp only [scan] at h
+    split at h
+    · cases h
+    · rename_i hk
+      simp only [List.mem_cons] at hx
+      rcases hx with rfl | hx
+      · rw [hk]; simp
+      · exact ih _ _ _ h x hx
+    · rename_i hk
+      split at h
+      · cases h
+      · split at h
+        · cases h
+        · simp only [List.mem_cons] at hx
+          rcases hx with rfl | hx
+          · rw [hk]; simp
+          · exact ih _ _ _ h x hx
+
+/-- If `findMatch` answers (a version or "no match"), no requirement of the list is unparsable. -/
+theorem findMatch_no_bad {u : Universe} {name : Bytes} {reqs : List Bytes}
+    (h : (∃ v, findMatch u name reqs = .ok v) ∨ findMatch u name reqs = .noMatch) :
+    ∀ r ∈ reqs, reqKind u r ≠ .bad := by
+  unfold findMatch at h
+  split at h
+  · intro r hr; cases hr
+  · split at h
+    · rename_i e hs
+      rcases scan_error _ _ _ _ hs with rfl | rfl
+      · rcases h with ⟨v, h⟩ | h <;> cases h
+      · rcases h with ⟨v, h⟩ | h <;> cases h
+    · rename_i s hs
+      exact scan_ok_no_bad _ _ _ _ hs
+
+theorem scan_append {u : Universe} {name : Bytes} :
+    ∀ (a b : List Bytes) (i : Nat) (s : Scan),
+      scan u name (a ++ b) i s =
+        match scan u name a i s with
+        | .ok s' => scan u name b (i + a.length) s'
+        | .error e => .error e := by
+  intro a
+  induction a with
+  | nil => intro b i s; simp [scan]
+  | cons r a ih =>
+    intro b i s
+    simp only [List.cons_append, scan, List.length_cons]
+    split
+    · rfl
+    · rw [ih]; simp [Nat.add_assoc, Nat.add_comm 1]
+    · split
+      · rfl
+      · split
+        · rfl
+        · rw [ih]; simp [Nat.add_assoc, Nat.add_comm 1]
+
+theorem pick_ne_noMatch {u : Universe} {name : Bytes} {s : Scan}
+    (hfind : ∃ v, s.versions.find? (matchesAll u s.hardConstraints) = some v) :
+    ∀ (l : List Bytes) (i : Nat), s.hardIdx = some (i + l.length) → pick u name s l i ≠ .noMatch := by
+  obtain ⟨v, hv⟩ := hfind
+  intro l
+  induction l with
+  | nil =>
+    intro i hi
+    simp only [List.length_nil, Nat.add_zero] at hi
+    simp [pick, hi, hv]
+  | cons vk rest ih =>
+    intro i hi
+    simp only [pick]
+    split
+    · simp
+    · split
+      · split <;> simp
+      · exact ih (i + 1) (by rw [hi]; simp only [List.length_cons]; congr 1; omega)
+
+/-- One range requirement after soft ones: `findMatch` never answers "no match" (it returns a
+version, or fails fatally when no listed version is in the range). -/
+theorem findMatch_softs_hard_ne_noMatch {u : Universe} {name : Bytes} {softs : List Bytes} {h : Bytes}
+    (hs : ∀ r ∈ softs, reqKind u r = .soft) (hh : reqKind u h = .hard) :
+    findMatch u name (softs ++ [h]) ≠ .noMatch := by
+  unfold findMatch
+  split
+  · rename_i heq; simp at heq
+  · rw [scan_append, scan_all_soft _ _ _ hs]
+    simp only [List.nil_append, Nat.zero_add, scan, hh]
+    cases hc : clientVersions u name with
+    | none => simp
+    | some vs =>
+      simp only
+      by_cases hany : (vs.reverse.any fun v => reqMatches u h v) = true
+      · simp only [hany, Bool.not_true, Bool.false_eq_true, if_false]
+        apply pick_ne_noMatch
+        · simp only [List.nil_append]
+          have hp : matchesAll u [h] = fun v => reqMatches u h v := by
+            funext v; simp [matchesAll]
+          rw [hp]
+          simp only [List.any_eq_true] at hany
+          obtain ⟨v, hv, hm⟩ := hany
+          cases hf : vs.reverse.find? (fun v => reqMatches u h v) with
+          | none =>
+            have := List.find?_eq_none.mp hf v hv
+            simp [hm] at this
+          | some w => exact ⟨w, rfl⟩
+        · simp
+      · simp [hany]
+
 end DepsDev.Resolve.Maven
